@@ -653,8 +653,8 @@ func (V *Verifier) checkExit(fc *FuncCtx, s *State, vals []Val, fi *FuncInfo, is
 	for _, n := range hn {
 		cur := s.heap[n]
 		init := "H_" + sanitize(n) + "_0"
-		if cur == init || otherGroup[n] || strings.Contains(n, "!.$") {
-			continue // (ghost fields are not framed)
+		if cur == init || otherGroup[n] {
+			continue
 		}
 		srt := fc.heapSorts[n]
 		two := strings.HasPrefix(srt, "(Array Int (Array Int")
